@@ -190,7 +190,7 @@ func (cur *FieldMask) addPath(path string, curDesc *thrift_reflection.TypeDescri
 			// println("token: ", tok.String())
 
 			all := cur.All()
-			if all {
+			if all && typ != pathTypeAny { // a repeated '*' is no conflict (as for '[*]' and '{*}')
 				return errPath(tok, "field conflicts with previously settled '*'")
 			}
 
